@@ -1,4 +1,5 @@
 """C18 — queue identity, queue-specific data and attributes are reported faithfully."""
+import re
 from common import run_lines
 
 META = {
@@ -84,6 +85,20 @@ def run(ctx):
                     ctxq = " %d" % c
             lines.append("SA %s %s %d %d %d %d%s" % (ps, cs, q, a, neg, path, ctxq)); nsa += 1
     real, rc, err = run_lines(h, lines, timeout=1200)
+    # hierarchies whose bottom is a thread-bound queue (the main queue drained run-loop style): items run by the bound thread
+    import subprocess
+    hb = ctx.harness("c18_bound")
+    nb = 0
+    for sd in range(3 if ctx.thorough else 2):
+        try:
+            p = subprocess.run([hb, str(ctx.seed * 10 + sd), "2000" if ctx.thorough else "400"], stdout=subprocess.PIPE, stderr=subprocess.DEVNULL, text=True, timeout=300)
+            out, rc = p.stdout.strip(), p.returncode
+        except subprocess.TimeoutExpired:
+            out, rc = "ORACLE VIOL the workload over a run-loop drained main queue hung", 1
+        m = re.search(r"items=(\d+)", out); nb += int(m.group(1)) if m else 0
+        if rc != 0:
+            ctx.violation("queue identity over a thread-bound bottom queue: " + (out[:300] or "exit %d" % rc), {"cmd": [hb, str(ctx.seed * 10 + sd), "400"]}, signature="specific:bound:" + out[12:60])
+    ctx.count("oracle bound main queue", nb, nb, samples=[{"cmd": "c18_bound %d 400" % (ctx.seed * 10)}])
     ctx.cov["rule"] = ("L-fn: every slot of the attribute table x every constructor and queue creation (exhaustive: %d lines), dispatch_get_global_queue on the documented "
                        "identifiers x defined and undefined flags plus bands of undefined identifiers, then random hierarchies (2-9 queues, serial/concurrent, "
                        "random key placement) probed through async/sync/barrier/async_and_wait/apply/group paths, nested synchronous submission included; "
